@@ -96,9 +96,15 @@ def gen_c02(r):
         if p["incoming"]:
             p["connect_delay_ms"] = r.choice([100, 400, 1200])
         peers.append(p)
-    # at most 3 incoming peers are admitted while nothing is interesting yet: keep essential ones dialled
+    # The client refuses an incoming connection while four or more connected peers have nothing
+    # it wants (MAX_NOT_INTERESTED), and a refused peer is not "reachable" in the sense of C02:
+    # an essential peer connects in only when fewer than four other peers can be connected.
+    if any(p["incoming"] for p in peers[:honest]) and len(peers) - 1 > 3:
+        for p in peers[:honest]:
+            p["incoming"] = False
+            p.pop("connect_delay_ms", None)
     faults = r.choice([[], [], ["close"], ["http500"], ["garbage"], ["failure"], ["close", "failure"]])
-    g.update(peers=peers, tracker_faults=faults, tracker_port=8000, timeout_s=90, stall_s=15)
+    g.update(peers=peers, tracker_faults=faults, tracker_port=8000, timeout_s=90, stall_s=15, tracker_delivery=r.choice(["whole", "whole", "split", "chunked"]))
     return g
 
 
@@ -178,6 +184,102 @@ def gen_c06(r):
     return g
 
 
+def gen_c02_incoming_churn(r):
+    """Nine to twelve peers connect in, shake hands and leave one after the other; then a seeder
+    that is reachable only inbound connects (and sends its handshake a little late, while other
+    events keep the client's main loop busy)."""
+    g, n = gen_geometry(r)
+    k = r.randint(9, 12)
+    peers = [dict(port=7200 + j, id="-FK%04d-abcdefghijkl" % (200 + j), incoming=True, have=[False] * n, seed=0, kind="visitor", connect_delay_ms=300 + 180 * j, linger_ms=r.choice([20, 100])) for j in range(k)]
+    peers.append(dict(port=7001, id="-FK0000-abcdefghijkl", incoming=True, have=[True] * n, seed=r.getrandbits(32), chunk=0, latency_ms=0, unchoke_delay_ms=0,
+                      connect_delay_ms=300 + 180 * k + 400, handshake_delay_ms=r.choice([0, 0, 300])))
+    g.update(peers=peers, tracker_faults=[], tracker_port=8000, timeout_s=90, stall_s=15, wait_hostile_s=0)
+    return g
+
+
+def gen_c02_late_handshake(r):
+    """An inbound seeder with exclusive pieces sends its handshake only after a pause, while a
+    dialled seeder is being downloaded from (the client's main loop is busy with other events
+    between accept and first byte); one run in three lets the pause span a 10 s choke rotation."""
+    g, n = gen_geometry(r)
+    ex = [r.random() < 0.5 for _ in range(n)]
+    if not any(ex):
+        ex[r.randrange(n)] = True
+    long = r.random() < 0.34
+    peers = [dict(port=7001, id="-FK0000-abcdefghijkl", incoming=False, have=[not x for x in ex], seed=r.getrandbits(32), chunk=r.choice([0, 1000]), latency_ms=r.choice([20, 60]), unchoke_delay_ms=0),
+             dict(port=7002, id="-FK0001-abcdefghijkl", incoming=True, have=ex, seed=r.getrandbits(32), chunk=0, latency_ms=0, unchoke_delay_ms=0, connect_delay_ms=r.choice([150, 400]),
+                  handshake_delay_ms=r.choice([10500, 12000]) if long else r.choice([200, 600, 1500]))]
+    g.update(peers=peers, tracker_faults=[], tracker_port=8000, timeout_s=90, stall_s=15)
+    return g
+
+
+def gen_have_all(g):
+    total = sum(f[1] for f in g["files"])
+    return [True] * ((total + g["piece_length"] - 1) // g["piece_length"])
+
+
+def gen_c04(r):
+    """The .torrent lies somewhere else than the start directory (relative path with a directory
+    part, parent directory, absolute path); one run in three has a hostile file name as well.
+    Whatever happens, nothing may appear outside the start directory."""
+    g = gen_c02(r)
+    g["tracker_faults"] = []
+    g["torrent_rel"] = r.choice(["../tdir/t.torrent", "../t.torrent", "sub/t.torrent", "ABS:abs/dir/t.torrent", "./t.torrent", "../a/b/../c/t.torrent"])
+    if r.random() < 0.34 and not g["single"]:
+        bad = r.choice(["../evil.dat", "../../evil.dat", "sub/../../evil.dat", "/tmp/vh-evil-%d.dat" % r.getrandbits(30), "../tdir/evil.dat"])
+        g["files"][r.randrange(len(g["files"]))][0] = bad
+        g["hostile_name"] = bad
+        g["stall_s"] = 5
+    return g
+
+
+def gen_c20(r, long=False, silent=False):
+    """Slow but live seeders on real TCP: the download takes 40-60 s (long: 150 s; silent: a peer
+    that says nothing is watched for six minutes). The client may not hang up on a peer that keeps
+    delivering; in the long runs its keep-alives are expected every two minutes."""
+    while True:
+        g, n = gen_geometry(r)
+        total = sum(f[1] for f in g["files"])
+        plen = g["piece_length"]
+        blocks = sum((min(plen, total - i * plen) + 16383) // 16384 for i in range(n))
+        if blocks >= 6:
+            break
+    want_s = r.uniform(150, 170) if long else r.uniform(38, 48)
+    k = r.randint(1, 2)
+    haves = [[False] * n for _ in range(k)]
+    for i in range(n):
+        haves[r.randrange(k)][i] = True
+    if not any(haves[0]):
+        haves[0][0] = True
+        for h in haves[1:]:
+            h[0] = False
+    # requests are answered one at a time after uniform(0, latency): mean latency/2 per block, per peer
+    per_peer = max(1, blocks // k)
+    lat = int(2 * want_s * 1000 / per_peer)
+    peers = [dict(port=7001 + j, id="-FK%04d-abcdefghijkl" % j, incoming=(j == 1 and r.random() < 0.5), have=haves[j], seed=r.getrandbits(32), chunk=0, latency_ms=min(lat, 60000), unchoke_delay_ms=0, connect_delay_ms=300) for j in range(k)]
+    g.update(peers=peers, tracker_faults=[], tracker_port=8000, timeout_s=int(want_s * 2.2) + 60, stall_s=int(min(lat, 60000) / 1000) + 20, expect_min_s=want_s)
+    if silent:
+        for p in peers:
+            p["latency_ms"] = 0
+        peers.append(dict(port=7060, id="-FK0060-abcdefghijkl", incoming=r.random() < 0.5, have=[False] * n, seed=0, kind="silent", expect_close=True, script=[], connect_delay_ms=200,
+                          keepalive_every_s=r.choice([None, 50, 119]), give_up_s=400))
+        g.update(timeout_s=460, wait_hostile_s=420, stall_s=500)
+    return g
+
+
+def gen_c01_mislabel(r):
+    """An honest seeder and one that answers the first two blocks of a piece with the right bytes
+    under each other's offsets (in arrival order they still concatenate to the true piece)."""
+    while True:
+        g, n = gen_geometry(r)
+        if g["piece_length"] >= 32768:
+            break
+    peers = [dict(port=7001, id="-FK0000-abcdefghijkl", incoming=False, have=[True] * n, seed=r.getrandbits(32), chunk=0, latency_ms=r.choice([20, 50]), unchoke_delay_ms=r.choice([0, 100])),
+             dict(port=7090, id="-FK0090-abcdefghijkl", incoming=False, have=[True] * n, seed=r.getrandbits(32), chunk=0, latency_ms=0, unchoke_delay_ms=0, swap_labels=True)]
+    g.update(peers=peers, tracker_faults=[], tracker_port=8000, timeout_s=90, stall_s=15)
+    return g
+
+
 def gen_c01(r):
     g = gen_c02(r)
     n = len(g["peers"][0]["have"])
@@ -193,10 +295,14 @@ def gen_c19(r, length=None):
     l = length if length is not None else r.randint(1, 4)
     g["tracker_faults"] = [r.choice(["close", "http500", "garbage", "failure"]) for _ in range(l)]
     g["timeout_s"] = 60 + 2 * l
+    g["tracker_delivery"] = r.choice(["whole", "split", "chunked"])
+    for p in g["peers"]:
+        if r.random() < 0.3:
+            p["host"] = "localhost"  # BEP3: "ip" may be a DNS name
     return g
 
 
-GENS = {"C02": gen_c02, "C01": gen_c01, "C19": gen_c19, "C06": gen_c06}
+GENS = {"C02": gen_c02, "C01": gen_c01, "C19": gen_c19, "C06": gen_c06, "C04": gen_c04, "C20": gen_c20}
 
 
 def run_cell(binary, sc, idx, root, netns):
@@ -227,19 +333,27 @@ def e2e(cid, tier, seed, jobs, scale, outdir, m, log, asan=False):
         m["inconclusive"].append("%s: binary build failed" % tag)
         return
     netns = have_netns()
-    n = {"C02": {"quick": 16, "thorough": 400}, "C01": {"quick": 8, "thorough": 200}, "C19": {"quick": 8, "thorough": 120}, "C06": {"quick": 24, "thorough": 400}}[cid][tier]
+    n = {"C02": {"quick": 16, "thorough": 400}, "C01": {"quick": 8, "thorough": 200}, "C19": {"quick": 8, "thorough": 120}, "C06": {"quick": 24, "thorough": 400}, "C04": {"quick": 12, "thorough": 200}, "C20": {"quick": 6, "thorough": 24}}[cid][tier]
     if asan:
         n = {"quick": 0, "thorough": 160 if cid == "C06" else 96}[tier]
     n = max(0, int(n * scale))
     if n == 0:
         return
-    r = random.Random((seed << 8) ^ hash(cid) % 1000003 ^ (77 if asan else 0))
+    r = random.Random((seed << 8) ^ int(hashlib.sha1(cid.encode()).hexdigest()[:6], 16) ^ (77 if asan else 0))
     gen = GENS[cid]
     scs = [gen(r) for _ in range(n)]
     if cid == "C02" and not asan:
         scs += [gen_c02_dead_peers(r)] + [gen_c02_all_incoming(r) for _ in range(5)]
         if tier == "thorough":
             scs += [gen_c02_dead_peers(r) for _ in range(10)] + [gen_c02_all_incoming(r) for _ in range(20)]
+    if cid == "C02" and not asan:
+        scs += [gen_c02_incoming_churn(r), gen_c02_late_handshake(r), gen_c02_late_handshake(r), gen_c02_late_handshake(r)]
+        if tier == "thorough":
+            scs += [gen_c02_incoming_churn(r) for _ in range(8)] + [gen_c02_late_handshake(r) for _ in range(24)]
+    if cid == "C01" and not asan:
+        scs += [gen_c01_mislabel(r) for _ in range(4 if tier == "quick" else 60)]
+    if cid == "C20" and not asan and tier == "thorough":
+        scs += [gen_c20(r, long=True) for _ in range(10)] + [gen_c20(r, silent=True) for _ in range(8)]
     if cid == "C19" and not asan:
         # longer runs of failures: the real HTTP client's retry loop must keep going
         scs += [gen_c19(r, 6), gen_c19(r, 9)]
@@ -260,9 +374,9 @@ def e2e(cid, tier, seed, jobs, scale, outdir, m, log, asan=False):
     for sc, res in zip(scs, results):
         m["evaluations"] += 1
         v = res.get("verdict")
-        desc = {k: sc[k] for k in ("piece_length", "files", "single", "tracker_faults")}
-        desc["peers"] = [{k: p.get(k) for k in ("port", "incoming", "chunk", "latency_ms", "choke_after_blocks", "disconnect_after_blocks", "mid_frame", "corrupt_permille", "noise_permille", "kind", "script") if p.get(k) is not None} | {"pieces": "".join("1" if b else "0" for b in p["have"])} for p in sc["peers"]]
-        wit = {"engine": tag, "scenario": desc, "result": {k: res.get(k) for k in ("verdict", "detail", "elapsed_s", "panics", "sanitizer", "piece_problems", "hostile", "peak_rss_kb", "log_tail", "stdout_tail")}}
+        desc = {k: sc[k] for k in ("piece_length", "files", "single", "tracker_faults")} | {k: sc[k] for k in ("tracker_delivery", "torrent_rel", "hostile_name") if k in sc}
+        desc["peers"] = [{k: p.get(k) for k in ("port", "host", "incoming", "chunk", "latency_ms", "choke_after_blocks", "disconnect_after_blocks", "mid_frame", "corrupt_permille", "noise_permille", "kind", "script", "connect_delay_ms", "handshake_delay_ms", "keepalive_every_s") if p.get(k) is not None} | {"pieces": "".join("1" if b else "0" for b in p["have"])} for p in sc["peers"]]
+        wit = {"engine": tag, "scenario": desc, "result": {k: res.get(k) for k in ("verdict", "detail", "elapsed_s", "panics", "sanitizer", "piece_problems", "hostile", "closed_by_client", "conn_life", "outside_start_dir", "peak_rss_kb", "log_tail", "stdout_tail")}}
         _count(m, "%s:%s" % (tag, v))
         if res.get("sanitizer"):
             _viol(m, "%s:%s:sanitizer-report" % (cid, tag), "AddressSanitizer report in the client: %s" % res["sanitizer"][:2], wit)
@@ -270,6 +384,45 @@ def e2e(cid, tier, seed, jobs, scale, outdir, m, log, asan=False):
         if res.get("piece_problems"):
             _viol(m, "C01:%s:stored-piece-not-verified" % tag if cid == "C01" else "%s:%s:stored-piece-not-verified" % (cid, tag), "; ".join(res["piece_problems"]), wit)
             continue
+        if cid == "C04":
+            _count(m, "%s_runs_with_torrent_elsewhere" % tag.replace("-", "_"))
+            m["sets"].setdefault("torrent_locations", set()).add(sc.get("torrent_rel"))
+            if res.get("outside_start_dir"):
+                wit["scenario"]["torrent_rel"] = sc.get("torrent_rel")
+                wit["scenario"]["hostile_name"] = sc.get("hostile_name")
+                _viol(m, "C04:%s:written-outside-start-directory" % tag, "started in cwd/ with `get %s`; afterwards these files exist outside the start directory: %s" % (sc.get("torrent_rel"), res["outside_start_dir"]), wit)
+                continue
+            if sc.get("hostile_name"):
+                _count(m, "%s_hostile_name_runs" % tag.replace("-", "_"))
+                if res.get("panics") or v == "client-died":
+                    m["inconclusive"].append("%s: hostile name %r: %s %s" % (tag, sc["hostile_name"], v, res.get("panics")))
+                continue
+        if cid == "C20":
+            bad = None
+            comp = res.get("complete_at_s")
+            for c in res.get("closed_by_client", []):
+                if 1 <= c.get("served_blocks", 0) < c.get("owed_blocks", 0) and c.get("s_since_our_last_message", 999) < 100 and (comp is None or c["at_s"] < comp - 3):
+                    bad = ("C20:%s:live-connection-closed" % tag, "peer %s (sole holder of its pieces) had served %d of %d blocks, its last one %.1f s earlier, when the client hung up at t=%.1f s (download %s)" % (c["port"], c["served_blocks"], c["owed_blocks"], c["s_since_our_last_message"], c["at_s"], "complete at %.1f s" % comp if comp else "never completed"))
+            for l in res.get("conn_life", []):
+                if l.get("lived_s", 0) >= 135:
+                    _count(m, "%s_connections_older_than_one_interval" % tag.replace("-", "_"))
+                    if not any(105 <= t <= 135 for t in l.get("keepalives_at_s", [])):
+                        bad = bad or ("C20:%s:keepalive-emission" % tag, "connection to %s lived %.0f s; keep-alives from the client at %s" % (l["port"], l["lived_s"], l.get("keepalives_at_s")))
+            for h in res.get("hostile", []):
+                if h.get("kind") == "silent" and not h.get("error"):
+                    _count(m, "%s_silent_connections_judged" % tag.replace("-", "_"))
+                    ca = h.get("closed_after_s")
+                    if ca is None or ca > 366:
+                        bad = bad or ("C20:%s:silent-connection-not-closed" % tag, "silent peer %s: closed after %s s (waited %s s)" % (h["port"], ca, h.get("waited_s")))
+                    ka = h.get("keepalives_from_client_at_s", [])
+                    life = ca if ca is not None else 380
+                    for tick in (120, 240):
+                        if life > tick + 15 and not any(tick - 15 <= t <= tick + 15 for t in ka):
+                            bad = bad or ("C20:%s:keepalive-emission" % tag, "silent peer %s: connection lived %.0f s, keep-alives from the client at %s" % (h["port"], life, ka))
+            if bad:
+                _viol(m, bad[0], bad[1], wit)
+                continue
+            _count(m, "%s_live_slow_connections_judged" % tag.replace("-", "_"), len(res.get("conn_life", [])))
         if cid == "C06" and res.get("panics"):
             _viol(m, "C06:%s:panic-in-client" % tag, "a task of the client panicked: %s" % res["panics"][:2], wit)
             continue
@@ -307,6 +460,8 @@ def e2e(cid, tier, seed, jobs, scale, outdir, m, log, asan=False):
         elif v == "client-died":
             sig = "%s:%s:client-died" % (cid, tag)
             _viol(m, sig, "the rdest process ended: %s; %s" % (res.get("detail"), res.get("panics")), wit)
+        elif v == "listed-peer-never-contacted":
+            _viol(m, "%s:%s:listed-peer-never-contacted" % (cid, tag), res.get("detail", ""), wit)
         elif v == "stalled":
             _viol(m, "%s:%s:stalled" % (cid, tag), res.get("detail", ""), wit)
         else:
